@@ -2,3 +2,12 @@
 import CircusModel.Proto
 import CircusModel.Model.FileStream
 import CircusModel.Drv.FileStream
+import CircusModel.Core.Types
+import CircusModel.Core.Kernel
+import CircusModel.Core.Watcher
+import CircusModel.Core.Interp
+import CircusModel.Core.Bodies
+import CircusModel.Core.Dispatch
+import CircusModel.Core.Commands
+import CircusModel.Core.Step
+import CircusModel.Drv.Core
